@@ -5,7 +5,14 @@ let cells n l =
     match l with Some x :: r -> go (k - 1) r (x :: acc) | _ -> None in
   go n l []
 let term l = l @ [Z0]
-let handle = function
+let errno_in = ref Z0
+let rec handle l =
+  match List.rev l with
+  | e :: r when String.length e > 1 && e.[0] = '@' ->      (* trailing @<errno>: the ambient errno the call starts with *)
+    errno_in := z_of_string (String.sub e 1 (String.length e - 1));
+    let a = handle1 (List.rev r) in errno_in := Z0; a
+  | _ -> handle1 l
+and handle1 = function
   | ["ptr"; h] ->
     (match ptr_current (term (bytes_of_hex h)) with
      | Oob i -> "OOB r" ^ string_of_z i
@@ -47,7 +54,7 @@ let handle = function
      | Ok (UOk _, UErrCp) -> "E2cp"
      | Ok (UOk _, UErrUnq) -> "E2unq")
   | ["num"; h] ->
-    (match num_current Z0 (term (bytes_of_hex h)) with
+    (match num_current !errno_in (term (bytes_of_hex h)) with
      | Oob i -> "OOB r" ^ string_of_z i
      | Fuel -> "FUEL"
      | Ok NErr -> "E"
